@@ -17,7 +17,9 @@ STRIPS = (f"""(define (domain s1)
   :precondition (and (p ?x) (not (p ?y)) (not (= ?x ?y)))
   :effect (and (not (p ?x)) (p ?y) (q ?x ?y)))
 (:action tg :parameters () :precondition (and) :effect (and (r)))
-(:action un :parameters (?x - t1) :precondition (and (r) (p ?x)) :effect (and (not (r)))))
+(:action un :parameters (?x - t1) :precondition (and (r) (p ?x)) :effect (and (not (r))))
+(:action set2 :parameters (?x - t2) :precondition (and) :effect (and (p ?x)))
+(:action clr :parameters (?x - t1) :precondition (and (p ?x)) :effect (and (not (p ?x)))))
 """, """(define (problem s1p) (:domain s1)
 (:objects a - t1 b - t2)
 (:init (p a))
